@@ -212,6 +212,17 @@ def _ir_tables(ctx, repo):
     two = [t for _l, _c, t in sorted(wk) if t in ("node[2]", "node[3]")]
     ctx.ob("C05-R3", cp.fq, "the parameter walk visits the left operand (node[2]) before the right (node[3])", two[:2] == ["node[2]", "node[3]"], node=cp.node, construct="consumer operand order",
            msg="parameters are collected right operand first while variables are numbered left first: the generated function binds a to b's value (a-b becomes b-a)")
+    # the walk's result is the list of first visits, in visit order (not a set, not sorted: '_v10' sorts before '_v2')
+    rets_cp = [r for r in walk_local(cp.node) if isinstance(r, ast.Return)]
+    okp = False
+    if len(rets_cp) == 1 and isinstance(rets_cp[0].value, ast.Name):
+        ln = rets_cp[0].value.id
+        inits = [n for n in walk_local(cp.node) if isinstance(n, ast.Assign) and any(isinstance(t, ast.Name) and t.id == ln for t in n.targets)]
+        muts = [c for c in ast.walk(cp.node) if isinstance(c, ast.Call) and isinstance(c.func, ast.Attribute) and isinstance(c.func.value, ast.Name) and c.func.value.id == ln]
+        okp = len(inits) == 1 and isinstance(inits[0].value, ast.List) and not inits[0].value.elts and bool(muts) and all(c.func.attr == "append" for c in muts)
+    ctx.ob("C05-R3", cp.fq, "the parameter walk returns its list of first visits in visit order (a list that is only appended to)", okp, node=rets_cp[0] if rets_cp else cp.node,
+           construct="parameter list in first-visit order",
+           msg=f"the parameter walk returns `{src(rets_cp[0].value) if rets_cp and rets_cp[0].value is not None else '?'}`: names are re-ordered (sorted text order puts _v10 before _v2, sets have no order) while the values are passed in numbering order, so with many variables each parameter receives another variable's value")
     for name, e in emits.items():
         for tag in ("binop", "cmp"):
             fm = (e.get(tag, {}).get("formats") or [""])[0]
@@ -219,7 +230,19 @@ def _ir_tables(ctx, repo):
             ctx.ob("C05-R3", NP_EMIT if name == "numpy" else TORCH_EMIT, f"'{tag}' emits the left operand before the right", ok, construct=f"{name} '{tag}' operand order")
     # compile_expr pairs parameter names with var_syms in insertion order
     ce = repo.fn("compiler:compile_expr")
-    ok = any(isinstance(n, ast.Assign) and src(n.value) == "list(var_refs.keys())" for n in walk_local(ce.node))
+    def _ins_order(v):
+        # list(d.keys()) / list(d) / [*d] / [*d.keys()]: the dictionary's insertion order
+        if isinstance(v, ast.Call) and callee_name(v) == "list" and len(v.args) == 1:
+            v = v.args[0]
+        elif isinstance(v, ast.List) and len(v.elts) == 1 and isinstance(v.elts[0], ast.Starred):
+            v = v.elts[0].value
+        else:
+            return None
+        if isinstance(v, ast.Call) and isinstance(v.func, ast.Attribute) and v.func.attr == "keys" and not v.args:
+            v = v.func.value
+        return v.id if isinstance(v, ast.Name) else None
+    refs = {src(c.args[2]) for c in calls_in(ce.node) if callee_name(c) == "_ast_to_ir" and len(c.args) >= 3}
+    ok = any(isinstance(n, ast.Assign) and _ins_order(n.value) in refs for n in walk_local(ce.node))
     ctx.ob("C05-R3", ce.fq, "variable symbols are passed in the order they were numbered", ok, node=ce.node, construct="var_syms in numbering order")
 
 
@@ -474,6 +497,8 @@ MUTATION_SCOPE = ['compiler:_ast_to_ir',
                   'interpreter:KlongInterpreter.__delitem__']
 
 SEEDS = [
+    Seed("collect-params-sorted", "fault", "backends/base", "        _walk(ir)\n        return params", "        _walk(ir)\n        return sorted(params)", rule="C05-R3"),
+    Seed("refactor-var-syms-list", "refactor", "compiler", "    var_syms = list(var_refs.keys())", "    var_syms = [*var_refs]"),
     Seed("setitem-keeps-compiled", "fault", "interpreter", "        # results since Python operators have different semantics per type.\n        self._compiled_cache.clear()", "        # results since Python operators have different semantics per type.\n        pass", rule="C05-R1"),
     Seed("define-bypasses-setitem", "fault", "dyads", "    klong[n] = v\n    return v", "    klong._context[n] = v\n    return v", rule="C05-R1"),
     Seed("narrow-fallback", "fault", "interpreter", "                            return fn(*args)\n                        except Exception:\n                            pass\n                f = self._get_op_fn(x.a.a, x.a.arity)",
